@@ -1,8 +1,12 @@
 #!/bin/sh
-# Thorough tier of C04: (1) hostile connections, direct calls and call-level task interleaving on
+# c04.sh <quick|thorough>
+# quick: passes (1) and (2) with small budgets; thorough: all three.
+# C04 passes: (1) hostile connections, direct calls and call-level task interleaving on
 # the real build; (2) loop-level interleaving on a generated yield-instrumented scratch copy of
 # /repo's working tree; (3) free-running goroutines under the race detector.
 cd "$(dirname "$0")" || exit 2
+tier=${1:-thorough}
+if [ "$tier" = quick ]; then nyield=1; yruns=150000; ysecs=60; else nyield=4; yruns=500000; ysecs=400; fi
 export GOFLAGS=-mod=mod GOPROXY=off GOSUMDB=off GOTOOLCHAIN=local
 mkdir -p .bin out evidence
 scratch=$(mktemp -d /tmp/verif-c04.XXXXXX) || exit 2
@@ -17,25 +21,15 @@ cp go.sum "$scratch/go.sum"
 if ! go build -modfile="$scratch/go.mod" -tags verifyield -o "$scratch/simcheck-yield" ./cmd/simcheck 2>"$scratch/build.log"; then
 	echo "INFRASTRUCTURE: yield-instrumented build failed:"; cat "$scratch/build.log"; exit 2
 fi
-# one world at a time per process (a single package-level hook): use processes for the cores
-base=${VERIF_SEED:-20261002}
-pids=""
-for k in 0 1 2 3 4 5 6 7 8 9 10 11; do
-	VERIF_SEED=$((base + 7919 * (k + 1))) "$scratch/simcheck-yield" -prop C04 -tier thorough -mode yield -tasks-only -runs 60000 -seeds 1 -secs 400 \
-		-evidence out/C04-yield-$k.json -out out >"$scratch/yield-$k.log" 2>&1 &
-	pids="$pids $!"
-done
-k=0
-for p in $pids; do
-	wait $p; rc=$?
-	if [ $rc -eq 1 ]; then fail=1; grep -E 'violation found|minimised|VIOLATION' "$scratch/yield-$k.log"; fi
-	if [ $rc -ge 2 ]; then echo "INFRASTRUCTURE: yield pass $k exit $rc"; tail -n 20 "$scratch/yield-$k.log"; exit 2; fi
-	tail -n 1 "$scratch/yield-$k.log"
-	k=$((k + 1))
-done
+# one world at a time per process (a single package-level hook); simcheck itself fans the runs out
+# over one child process per core
+"$scratch/simcheck-yield" -prop C04 -tier $tier -mode yield -tasks-only -runs $yruns -seeds $nyield -secs $ysecs -evidence out/C04-yield.json -out out
+rc=$?
+[ $rc -eq 1 ] && fail=1
+[ $rc -ge 2 ] && { echo "INFRASTRUCTURE: yield pass exit $rc"; exit 2; }
 
 # (3) race-detector pass (auxiliary: the interleaving is not chosen by the simulator here)
-if [ $fail -eq 0 ]; then
+if [ $fail -eq 0 ] && [ "$tier" = thorough ]; then
 	if ! go build -race -o "$scratch/simcheck-race" ./cmd/simcheck 2>"$scratch/build.log"; then
 		echo "INFRASTRUCTURE: race build failed:"; cat "$scratch/build.log"; exit 2
 	fi
@@ -56,7 +50,9 @@ fi
 
 # (1) main pass last: it writes evidence/C04.json and embeds the sub-pass coverage
 go build -o .bin/simcheck ./cmd/simcheck || { echo "INFRASTRUCTURE: harness build failed"; exit 2; }
-./.bin/simcheck -prop C04 -tier thorough -embed out/C04-yield-0.json,out/C04-yield-1.json,out/C04-yield-2.json,out/C04-yield-3.json,out/C04-race.json
+embed=out/C04-yield.json
+[ "$tier" = thorough ] && embed=$embed,out/C04-race.json
+./.bin/simcheck -prop C04 -tier $tier -embed $embed
 rc=$?
 [ $rc -ge 2 ] && exit 2
 [ $rc -eq 1 ] && fail=1
